@@ -47,6 +47,40 @@ def corpus_pipeline():
     return ok
 
 
+T_FLOWS = '''from inline_snapshot import snapshot
+
+def test_a():
+    assert obs == snapshot("previous")
+    assert [obs, 1] == snapshot(["previous", 1])
+    assert obs <= snapshot("")
+    assert obs in snapshot(["previous"])
+    assert {1: obs} == snapshot({1: "previous", 2: 3})
+'''
+T_FLOWS_B = T_FLOWS.replace('"previous"', 'b"previous"').replace('snapshot("")', 'snapshot(b"")')
+
+
+def corpus_other_flows():
+    """the same corpus written by fix (whole value replaced, element replaced in place, bound, member, dict value)"""
+    world.install_plugin_shims()
+    ok = True
+    for s in CORPUS:
+        if isinstance(s, str) and "\ud800" in s:
+            continue
+        world.reset({"obs": s})
+        t = T_FLOWS if isinstance(s, str) else T_FLOWS_B
+        try:
+            r = world.plugin_session(t, cli="fix,trim")
+            new = world.text_after(r)
+            good = r.finish_error is None and world.passes_when_disabled(new)
+            args = world.snapshot_arg_sources(new)
+        except Exception as e:
+            good, args = False, [repr(e)]
+        PathLog.record("flows" + repr(s), nontrivial=True, sample={"value": repr(s), "written_arguments": args, "reads_back": bool(good)})
+        if not good:
+            ok = False
+    return ok
+
+
 def second_run_is_noop():
     """the created literal is also token-stable (no pending update on a second run) - part of C08's leaf corpus"""
     world.install_plugin_shims()
@@ -67,13 +101,14 @@ def second_run_is_noop():
 def conditions(tier):
     return [
         Cond("corpus_pipeline", corpus_pipeline, concrete=True, group="contract-validation", bounds=f"{len(CORPUS)} fixed str/bytes values through the real create pipeline (real repr, tokenizer, black, hooks), top level and nested in list/dict/tuple"),
+        Cond("corpus_other_flows", corpus_other_flows, concrete=True, group="contract-validation", bounds="the same corpus written by fix/trim over an existing value: whole value, list element in place, bound, member, dict value"),
         Cond("corpus_second_run", second_run_is_noop, concrete=True, group="contract-validation", bounds="the same corpus: a second run with all categories approved rewrites nothing"),
     ]
 
 
 def replay(tier, condname, cex):
     W.concrete = True
-    fn = {"corpus_pipeline": corpus_pipeline, "corpus_second_run": second_run_is_noop}[condname]
+    fn = {"corpus_pipeline": corpus_pipeline, "corpus_second_run": second_run_is_noop, "corpus_other_flows": corpus_other_flows}[condname]
     ok = fn()
     bad = [s for s in PathLog.samples if s.get("reads_back") is False or "second_run_rewrote" in s]
     return {"violated": not ok, "detail": repr(bad[:5])}
